@@ -147,7 +147,7 @@ func famCancel(w *World) {
 			w.eval("C14.handler-deadline")
 			if !r.H.HasDeadline {
 				w.violate("C14", "handler-without-deadline", "call %s: handler context has no deadline", s.Tag)
-			} else if rem := r.H.Deadline - r.H.EnterAt; rem > ttl {
+			} else if rem := r.H.RemainingAtEntry; rem > ttl {
 				w.violate("C14", "handler-deadline-beyond-ttl", "call %s: handler saw %v remaining at entry, the request carried ttl %v", s.Tag, rem, ttl)
 			}
 		}
